@@ -1,7 +1,10 @@
 """C01 — programs of guard / scope / emission operations on 1-4 threads against the real
 set_default_local_recorder / with_local_recorder / with_recorder / set_global_recorder and every macro form."""
 import json
+import os
+import re
 
+from . import core
 from .core import Prop, MachineryBroken, cq_N, cq_list, cq_opt, cq_bool, cq_bytes
 from .c01_forms import FORMS, UNITS, COQ_CALLS, uses
 
@@ -218,7 +221,10 @@ class C01(Prop):
                   "the pointer saved at its installation and, under LIFO, the pointer is the recorder of the innermost open scope. A dispatch to a "
                   "dead recorder happens only in the two open known classes (non-LIFO drop, mem::forget), each witnessed in Coq and replayed on the "
                   "real code. The model is tied to /repo by running the real functions and all 204 macro call sites on the same programs each run.")
-    level_note = ("The use-after-scope itself is replaced by a flag on leaked recorder doubles (no real dangling dereference); the unsafe transmute is "
+    level_note = ("wf_prog is an assumption about which programs exist; it is enforced by rustc through the signature of "
+                  "set_default_local_recorder/LocalRecorderGuard<'a> and checked each run by compiling the negative programs of "
+                  "harness/negative/c01 (a negative program that compiles is a VIOLATION). Four representative shapes, not a proof about the type system. "
+                  "The use-after-scope itself is replaced by a flag on leaked recorder doubles (no real dangling dereference); the unsafe transmute is "
                   "not modelled. The macro layer is modelled per token class of each argument position (literal / constant expression / computed "
                   "String / label collection), not by parsing macro_rules!; `spelled` (Spec) and `expand` (Model) are two readings of the same "
                   "call-site description, proved equal. Label collections that reorder (maps) are not in the table. A panic is a scripted "
@@ -233,7 +239,10 @@ class C01(Prop):
     assumptions = ["a dispatch to a recorder whose borrow ended is observed through the double's cleared in-scope flag, not executed as a real use-after-free",
                    "workers execute the global operation list in order (commands over channels), so the interleaving is the program order",
                    "RecorderOnceCell::set installs only the first recorder (C02)"]
-    trusted_extra = ["vlib/c01_forms.py: generates both the Rust call-site table (c01_sites.rs) and its Coq description (C01/Sites.v)",
+    trusted_extra = ["rustc 1.74.0 borrow/Send checking: wf_prog (no EndBorrow while a live guard borrows the recorder; guard operations only on "
+                     "the installing thread) is tied to the code by the compile-fail engine harness/negative/c01 (4 programs that must be "
+                     "rejected with E0597/E0515/E0505/E0277 against /repo, 1 positive control), run on every check",
+                     "vlib/c01_forms.py: generates both the Rust call-site table (c01_sites.rs) and its Coq description (C01/Sites.v)",
                      "rustc's macro_rules! matching (which arm a call site takes) is exercised by compiling the 204 sites, not modelled",
                      "std::sync::mpsc, std::thread, catch_unwind (exercised, not modelled)"]
 
@@ -285,7 +294,84 @@ class C01(Prop):
         return cases
 
     # ------------------------------------------------------------------ implementation side
+    # ------------------------------------------------------------------ compile-fail engine
+    # wf_prog (Spec.v) says what safe Rust admits: no EndBorrow r while an Alive guard installed r, guard operations only
+    # by the owning thread.  In the real crate these facts are enforced by rustc through the signature of
+    # set_default_local_recorder / LocalRecorderGuard<'a> (PhantomData<&'a dyn Recorder>, NonNull => !Send), not by any
+    # code that runs.  harness/negative/c01 holds programs that violate them; each must be rejected with the error code
+    # named in its first line (`// expect: E0597`), and the positive control must compile.
+    def negative_dir(self):
+        return os.path.join(core.HARNESS, "negative", "c01")
+
+    def negative_programs(self):
+        d = os.path.join(self.negative_dir(), "src", "bin")
+        out = []
+        for f in sorted(os.listdir(d)):
+            if f.endswith(".rs"):
+                txt = open(os.path.join(d, f), encoding="utf-8").read()
+                m = re.match(r"// expect: (\w+)", txt)
+                if not m:
+                    raise MachineryBroken("negative program %s has no `// expect:` line" % f)
+                out.append((f[:-3], m.group(1), txt))
+        return out
+
+    def compile_program(self, name):
+        env = {"RUSTFLAGS": "--cfg metrics_verif", "CARGO_TARGET_DIR": core.TARGET, "CARGO_NET_OFFLINE": "true"}
+        rc, out = core.sh(["cargo", core.TOOLCHAIN, "build", "--offline", "--release", "--bin", name],
+                          cwd=self.negative_dir(), timeout=900, env=env)
+        return rc, out
+
+    def negative_verdict(self, name):
+        """-> (rejected_as_expected: bool, compiler output).  Raises MachineryBroken when the outcome says nothing
+        about the property (control does not compile, or a program is rejected for another reason)."""
+        progs = {n: (exp, txt) for n, exp, txt in self.negative_programs()}
+        if name not in progs:
+            raise MachineryBroken("no negative program %s" % name)
+        exp = progs[name][0]
+        rc, out = self.compile_program(name)
+        if exp == "ok":
+            if rc != 0:
+                raise MachineryBroken("C01 compile-fail engine: the positive control %s does not compile:\n%s" % (name, out[-2500:]))
+            return True, out
+        if rc == 0:
+            return False, out
+        if ("error[%s]" % exp) not in out or ("src/bin/%s.rs" % name) not in out:
+            raise MachineryBroken("C01 compile-fail engine: %s is rejected, but not with %s in its own source:\n%s" % (name, exp, out[-2500:]))
+        return True, out
+
+    def extra_checks(self, ctx):
+        vio = []
+        n_rej = 0
+        progs = self.negative_programs()
+        for name, exp, txt in progs:
+            ok, out = self.negative_verdict(name)
+            if exp != "ok" and ok:
+                n_rej += 1
+            if not ok:
+                vio.append(("compile",
+                            "safe Rust now admits a program in which an emission is dispatched after the installing borrow ended "
+                            "(or a guard leaves its thread): harness/negative/c01/src/bin/%s.rs, which rustc must reject with %s, "
+                            "compiles against /repo; wf_prog no longer describes the programs the crate accepts, so the C01 "
+                            "theorems no longer cover every safe program" % (name, exp),
+                            dict(case=dict(negative=name), expected_error=exp, program=txt,
+                                 build_cmd="cd harness/negative/c01 && RUSTFLAGS='--cfg metrics_verif' cargo +1.74.0 build --offline --release --bin %s" % name)))
+        ctx["coverage"]["compile_fail_programs_rejected"] = n_rej
+        ctx["coverage"]["compile_fail_programs"] = [n for n, e, _ in progs if e != "ok"]
+        ctx["coverage"]["compile_positive_controls"] = [n for n, e, _ in progs if e == "ok"]
+        return vio
+
     def evaluate(self, binpath, cases, tier, tag="cases"):
+        neg = [c for c in cases if "negative" in c]
+        if neg:
+            # replay of a compile-fail violation: spec = "the program is rejected as expected"
+            rs = []
+            for c in cases:
+                if "negative" in c:
+                    ok, out = self.negative_verdict(c["negative"])
+                    rs.append(dict(case=c, out=out[-1500:], agree=True, spec=ok, known=None))
+                else:
+                    rs += self.evaluate(binpath, [c], tier, tag)
+            return rs
         rs = super().evaluate(binpath, cases, tier, tag)
         for r in rs:
             if r["known"] == 99:
@@ -316,6 +402,8 @@ class C01(Prop):
     # ------------------------------------------------------------------ Coq side
     def coq_case(self, c):
         xs = []
+        if "negative" in c:
+            return "[]"
         for o in c["ops"]:
             k = o[0]
             if k == "I":
@@ -367,6 +455,8 @@ class C01(Prop):
         return [c, out]
 
     def shrink(self, c):
+        if "negative" in c:
+            return []
         ops = c["ops"]
         cands = []
         for i, o in enumerate(ops):
